@@ -23,6 +23,9 @@ pub const AT_MARKER: u16 = 0x3fff;
 #[derive(Clone, Debug, PartialEq)]
 pub enum WOp {
     Simple(u8),
+    /// only as the first operation: the expression is started with `Expression::raw` holding this one-byte operation
+    /// and then extended through the builder methods
+    Raw(u8),
     Addr(u64),
     Constu(u64),
     Consts(i64),
@@ -210,11 +213,19 @@ pub struct Built {
 }
 
 pub fn build_expr(ops: &[WOp], ui: usize, unit_ids: &[w::UnitId], entry_ids: &[Vec<w::UnitEntryId>]) -> w::Expression {
-    let mut e = w::Expression::new();
+    let mut e = match ops.first() {
+        Some(WOp::Raw(o)) => w::Expression::raw(vec![*o]),
+        _ => w::Expression::new(),
+    };
     let mut branches: Vec<(usize, usize)> = Vec::new();
     let eid = |u: usize, i: usize| entry_ids[u][i.min(entry_ids[u].len() - 1)];
-    for op in ops {
+    for (k, op) in ops.iter().enumerate() {
         match op {
+            WOp::Raw(o) => {
+                if k != 0 {
+                    e.op(gimli::DwOp(*o))
+                }
+            }
             WOp::Simple(o) => e.op(gimli::DwOp(*o)),
             WOp::Addr(a) => e.op_addr(mk_addr(*a)),
             WOp::Constu(v) => e.op_constu(*v),
@@ -406,7 +417,30 @@ pub struct WrittenSections {
     pub map: BTreeMap<&'static str, Vec<u8>>,
 }
 
+thread_local! {
+    static SYMBOLIC_WRITE: std::cell::Cell<bool> = const { std::cell::Cell::new(false) };
+}
+
+/// Run `f` with every address built as `Address::Symbol` and every section written through the relocation-recording
+/// writer, the recorded relocations then being applied: the sections `f` reads back are what a linker would produce.
+pub fn with_symbolic_write<T>(f: impl FnOnce() -> T) -> T {
+    struct Reset;
+    impl Drop for Reset {
+        fn drop(&mut self) {
+            set_symbolic(false);
+            SYMBOLIC_WRITE.with(|s| s.set(false));
+        }
+    }
+    let _reset = Reset;
+    set_symbolic(true);
+    SYMBOLIC_WRITE.with(|s| s.set(true));
+    f()
+}
+
 pub fn write_sections(b: &mut Built, big: bool) -> Result<WrittenSections, w::Error> {
+    if SYMBOLIC_WRITE.with(|s| s.get()) {
+        return crate::c18::write_built_applied(&mut b.dwarf, big).map(|map| WrittenSections { map });
+    }
     let endian = if big { RunTimeEndian::Big } else { RunTimeEndian::Little };
     let mut sections = w::Sections::new(w::EndianVec::new(endian));
     b.dwarf.write(&mut sections)?;
@@ -441,7 +475,7 @@ pub fn expected_mops(ops: &[WOp], ui: usize, u: &WUnit, pos: &Positions) -> Opti
     let mut out = Vec::new();
     for op in ops {
         out.push(match op {
-            WOp::Simple(o) => match crate::exprvm::decode_op(&[*o], 0, &u.cfg(false)) {
+            WOp::Simple(o) | WOp::Raw(o) => match crate::exprvm::decode_op(&[*o], 0, &u.cfg(false)) {
                 Ok((m, _)) => m,
                 Err(_) => return None,
             },
